@@ -36,11 +36,11 @@ ANCHORS = ['debian.arfile:ArFile.__collect_members', 'debian.arfile:ArMember.fro
            'debian.arfile:ArMember.tell', 'debian.arfile:ArFile.getmember']
 MUST_REACH = ANCHORS
 FLOORS = {'quick': {'nontrivial': 800, 'monitors': {'M.op': 30000, 'K9': 10000, 'M.listing': 1000, 'M.listing-again': 1000},
-                    'counters': {'lookup-mid-history': 900, 'readline-size-zero-or-negative': 1200, 'sibling-members-dropped-before-reads': 700, 'fileobj-kind:tempfile': 450, 'fileobj-kind:rawio': 450, 'fileobj-kind:fdopen': 450, 'fileobj-kind:unlinked': 450, 'fileobj-kind:replaced': 450,
+                    'counters': {'lookup-mid-history': 900, 'readline-size-zero-or-negative': 1200, 'sibling-members-dropped-before-reads': 700, 'fileobj-kind:tempfile': 450, 'fileobj-kind:rawio': 450, 'fileobj-kind:fdopen': 450, 'fileobj-kind:unlinked': 450, 'fileobj-kind:replaced': 450, 'fileobj:archive-at-nonzero-offset': 700, 'fileobj:archive-at-nonzero-offset:preamble-ar-look-alike': 200,
                                  'archive-object-dropped-before-reads': 2400, 'filename:members-dropped-unclosed': 1300,
                                  'filename:path_reuse': 1300, 'filename:twin': 650, 'op-through-twin': 4000}},
           'thorough': {'nontrivial': 40000, 'monitors': {'M.op': 1500000, 'K9': 500000, 'M.listing': 50000, 'M.listing-again': 50000},
-                       'counters': {'lookup-mid-history': 90000, 'readline-size-zero-or-negative': 120000, 'sibling-members-dropped-before-reads': 70000, 'fileobj-kind:tempfile': 45000, 'fileobj-kind:rawio': 45000, 'fileobj-kind:fdopen': 45000, 'fileobj-kind:unlinked': 45000, 'fileobj-kind:replaced': 45000,
+                       'counters': {'lookup-mid-history': 90000, 'readline-size-zero-or-negative': 120000, 'sibling-members-dropped-before-reads': 70000, 'fileobj-kind:tempfile': 45000, 'fileobj-kind:rawio': 45000, 'fileobj-kind:fdopen': 45000, 'fileobj-kind:unlinked': 45000, 'fileobj-kind:replaced': 45000, 'fileobj:archive-at-nonzero-offset': 70000, 'fileobj:archive-at-nonzero-offset:preamble-ar-look-alike': 20000,
                                     'archive-object-dropped-before-reads': 120000, 'filename:members-dropped-unclosed': 65000,
                                     'filename:path_reuse': 65000, 'filename:twin': 32000, 'op-through-twin': 200000}}}
 LEVEL_TEXT = ('Runtime monitoring: seeded interleaved operation histories on live ArMember objects, each result compared with an '
@@ -135,6 +135,7 @@ def cases(ctx):
     if ctx.shard == 0:
         yield {'kind': 'repo-tests'}        # the repository's own tests under K9, as one more workload
     r = ctx.rng('hist')
+    re_ = ctx.rng('embedded')
     for n in range(ctx.size(16000, 1800000)):
         nm = r.choice([0, 1, 2, 2, 3, 3, 4, 5])
         names = r.sample(NAMES, r.randint(1, len(NAMES)))
@@ -148,6 +149,11 @@ def cases(ctx):
         case['drop_siblings'] = case['drop_ar'] and r.random() < .5
         if case['mode'] == 'fileobj':
             case['fobj'] = r.choice(['bytesio', 'bytesio', 'bytesio', 'tempfile', 'fdopen', 'unlinked', 'replaced', 'rawio'])
+        if case['mode'] == 'fileobj' and re_.random() < .15:
+            # the archive does not start at byte 0 of the file object: the object is handed over positioned at the archive's
+            # global header, behind a preamble (an archive inside a container file); own stream
+            case['pre'] = re_.choice([1, 2, 7, 8, 59, 60, 61, 68, 511, 512, 4096, 8191, 65537])
+            case['pre_kind'] = re_.choice(['text', 'zeros', 'ar-look-alike'])
         if case['mode'] == 'filename':
             case['path_reuse'] = r.random() < .5
             case['close'] = r.random() < .5
@@ -207,6 +213,14 @@ def run_case(ctx, case):
         return repotests.run_repo_tests_under_monitors(ctx, ('K9',))
     members, ops = case['members'], case['ops']
     raw = build_ar(members, case['style'])
+    pre = b''
+    if case.get('pre'):
+        n = case['pre']
+        unit = {'text': b'preamble line\n', 'zeros': b'\0', 'ar-look-alike': b'!<arch>\ndecoy/          0           0     0     644     4         `\nabcd'}[case.get('pre_kind', 'text')]
+        pre = (unit * (n // len(unit) + 1))[:n]
+        raw = pre + raw
+        ctx.count('fileobj:archive-at-nonzero-offset')
+        ctx.count('fileobj:archive-at-nonzero-offset:preamble-%s' % case.get('pre_kind', 'text'))
     tf = None
     path = None
     holder = {'ars': [], 'live': []}
@@ -244,7 +258,17 @@ def run_case(ctx, case):
                         holder['unlink'] = fpath
             holder['under'] = under
             tf = probes.TracingFile(under)
-            holder['ars'].append(arfile.ArFile(fileobj=tf))
+            if pre:
+                under.seek(len(pre))
+                try:
+                    holder['ars'].append(arfile.ArFile(fileobj=tf))
+                except Exception as e:
+                    ctx.violation('archive-at-nonzero-offset-of-file-object-not-read/%s' % type(e).__name__,
+                                  'file object positioned at offset %d (the archive\'s global header, behind a %s preamble): ArFile(fileobj=...) raised %r'
+                                  % (len(pre), case.get('pre_kind'), e), case)
+                    return
+            else:
+                holder['ars'].append(arfile.ArFile(fileobj=tf))
         else:
             if not _DIR:
                 _DIR.append(ctx.tmpdir())       # one directory per process: 'reused.ar' really is the same path every time
@@ -373,7 +397,7 @@ def _history(ctx, case, holder, members, ops, raw, tf):
     if twin:
         shadows = [io.BytesIO(m['data'].encode('latin-1')) for m in members + members]
     offsets = []
-    pos = 8
+    pos = 8 + (case.get('pre') or 0)
     for m in members:
         pos += 60
         offsets.append(pos)
